@@ -108,7 +108,13 @@ def post_save_oracle(ctx, scen, root, top, before, after, wm):
             continue                      # a top-level file literally named Manifest is never compressed implicitly
         logical = p[:-len(os.path.splitext(p)[1])] if compressed else p
         want = wm is not None and size >= wm   # (a top-level Manifest that IS compressed follows the watermark like any other)
-        if wm is not None and compressed != want:
+        def same_logical0(q):
+            return q == logical or any(q == logical + s for s in FORMATS[1:])
+        if len([q for q in before if same_logical0(q)]) > 1:
+            # two files for this logical Manifest BEFORE the update (Manifest next to Manifest.gz): outside the premise "one file
+            # per logical Manifest"; the code keeps both as they are rather than renaming one onto the other (repair of F8)
+            ctx.count('outside-premise:two-files-for-one-logical-manifest-before')
+        elif wm is not None and compressed != want:
             ctx.fail('watermark-not-followed', dict(scen, manifest=p), f'size {size} watermark {wm} compressed {compressed}')
         # exactly one file per logical Manifest
         # (a second file for the same logical Manifest that was there BEFORE the update is prior state, not a failed rename)
